@@ -4,3 +4,4 @@ import NibiruModel.SdkDec
 import NibiruModel.Inflation
 import NibiruModel.Oracle
 import NibiruModel.OracleVotes
+import NibiruModel.TokenFactory
